@@ -48,10 +48,13 @@ def tasks(tier, seed):
                                 ts.append({"kind": "seq", "seq": list(seq), "term": term, "disp": disp, "onrec": onrec, "interval": interval, "ping": ping,
                                            "bound": (1 if tier == "quick" else 2) if (ping and disp == "builtin") else 0,
                                            "name": "%s|%s/%s/rec=%s/i=%d/ping=%s" % (",".join(seq) or "-", term, disp, onrec, interval, ping)})
+    # close() from a second thread: at every scheduling point of the loop thread (preemption) and at every phase of the
+    # reconnect cycle in virtual time (connection open, during the reconnect sleep, during a failing attempt, after re-establishment)
     for disp in ("builtin",):
         for ping in (False, True):
-            ts.append({"kind": "closer", "seq": ["eof", "refused"], "term": "stays-up", "disp": disp, "onrec": True, "interval": 3, "ping": ping,
-                       "bound": 1 if tier == "quick" else 2, "name": "closer/%s/ping=%s" % (disp, ping)})
+            for delay in [x * 0.5 for x in range(0, 21)]:
+                ts.append({"kind": "closer", "seq": ["eof", "refused"], "term": "stays-up", "disp": disp, "onrec": True, "interval": 3, "ping": ping, "delay": delay,
+                           "bound": 1 if tier == "quick" else 2, "name": "closer/%s/ping=%s/delay=%.1f" % (disp, ping, delay)})
     return ts
 
 
@@ -185,7 +188,7 @@ class Harness:
             rel = FakeRel()
             run_kwargs["dispatcher"] = rel
         if d["kind"] == "closer":
-            spec["closer"] = {"start_after": "on_open"}
+            spec["closer"] = {"start_after": "on_open", "delay": d.get("delay", 0)}
         if rel is not None:
             actions["on_close"] = lambda app, run, r=rel: r.abort()
         run = appsim.AppRun(ch, spec)
@@ -228,6 +231,10 @@ class Harness:
 
         def V(kind, what, **extra):
             sig = dict({"kind": kind, "disp": d["disp"], "term": lastk if d["kind"] != "closer" else "closer-thread"}, **extra)
+            if d["kind"] == "closer":
+                tcs = [e[0] for e in run.trace if e[1] == "--closer-calls-close--"]
+                conn_t = [e[0] for e in run.trace if e[1] == "--connect--"]
+                sig["phase"] = "during-handshake-of-an-attempt" if tcs and tcs[0] in conn_t else "elsewhere"
             return Violation(sig, "%s: %s" % (name, what), detail={"trace": repr(run.trace)[:3000]})
 
         if rel is not None and rel.escaped:
@@ -262,10 +269,12 @@ class Harness:
             names = [e[1] for e in run.trace]
             if "--closer-done--" in names:
                 di = names.index("--closer-done--")
-                late = [e for e in run.trace[di + 1:] if e[1] == "--connect--"]
+                # an attempt racing with close() at the same virtual instant counts as "already in progress" (check-then-act inside setSock);
+                # what must not happen is an attempt at a strictly later instant
+                late = [e for e in run.trace[di + 1:] if e[1] == "--connect--" and e[0] > run.trace[di][0]]
                 if late:
                     raise V("attempt-after-close", "a connection attempt was started at t=%.2f after close() had returned at t=%.2f" % (late[0][0], run.trace[di][0]))
-                after_cb = [e for e in run.trace[di + 1:] if e[1] in ("on_open", "on_reconnect", "on_message")]
+                after_cb = [e for e in run.trace[di + 1:] if e[1] in ("on_open", "on_reconnect", "on_message") and e[0] > run.trace[di][0]]
                 if after_cb:
                     raise V("callback-after-close", "%s fired after close() had returned" % after_cb[0][1])
         else:
